@@ -368,7 +368,10 @@ TrFinish ==
                 !.c04 = @ /\ st[s] = "run",
                 \* C05: what the system wrote is a function of what it declared to read,
                 \* evaluated on the spec's world (nobody else may have touched it meanwhile)
-                !.c05 = @ /\ (regs[s].kind \notin {"batch", "nest"} => e.nv = [i \in DOMAIN regs[s].ws |-> w1[regs[s].ws[i]]]),
+                !.c05 = @ /\ (regs[s].kind \notin {"batch", "nest"} =>
+                                 /\ e.nv = [i \in DOMAIN regs[s].ws |-> w1[regs[s].ws[i]]]
+                                 \* ... and what it saw (its own state depends on nothing else) is the spec's world
+                                 /\ e.seen = [i \in DOMAIN regs[s].rs |-> world[regs[s].rs[i]]]),
                 \* C07: the batch ends only when its inner dispatch has ended
                 !.c07 = @ /\ (regs[s].kind \in {"batch", "nest"} => ~dsp[regs[s].inner].on)]
   /\ UNCHANGED pvars
@@ -395,7 +398,8 @@ TrCtl ==
               w1 == StepW(s, regs[s].rs, regs[s].ws, world) IN
           /\ world' = w1
           /\ UNCHANGED <<st, runs, dsp, w0, nset, ndis, asy>>
-          /\ ok' = [ok EXCEPT !.c05 = @ /\ st[s] = "run" /\ e.nv = [i \in DOMAIN regs[s].ws |-> w1[regs[s].ws[i]]]]
+          /\ ok' = [ok EXCEPT !.c05 = @ /\ st[s] = "run" /\ e.nv = [i \in DOMAIN regs[s].ws |-> w1[regs[s].ws[i]]]
+                                          /\ e.seen = [i \in DOMAIN regs[s].rs |-> world[regs[s].rs[i]]]]
   /\ UNCHANGED pvars
 
 TrPanic ==
